@@ -13,6 +13,11 @@
 //!     restart of a node from a snapshot (`_reload_node`), in sync with the monitors or stale
 //!   * `pump` with a barrier node (resolutions are handed to the payer one by one), `deliver_until`
 //!   * a user model: claim_funds only in answer to a handled PaymentClaimable (see `claim`)
+//!   * restarts from a stale manager snapshot (the monitors are ahead: LDK closes those channels) after
+//!     which the run goes on, and a miner (`settle_chain`): every broadcast transaction is mined as soon
+//!     as it can confirm, block after block, until every timelock of the run has expired; what a mined
+//!     transaction shows (commitment of which channel with which output values; HTLC output of which
+//!     payment hash spent with / without the preimage) is recorded as `chain` events
 //! It only drives the real code and records what a user / the wire can observe (NDJSON).
 //!
 //! usage: paynet --scripts FILE --out TRACE [--seed S]
@@ -37,7 +42,7 @@ use lightning::util::ser::Writeable;
 use lightning::util::test_channel_signer::TestChannelSigner;
 use lightning::util::test_utils::TestChainMonitor;
 use serde_json::{json, Value};
-use std::collections::{HashMap, VecDeque};
+use std::collections::{HashMap, HashSet, VecDeque};
 use std::panic::{catch_unwind, AssertUnwindSafe};
 use std::sync::atomic::{AtomicU64, Ordering};
 use std::sync::{Arc, Mutex};
@@ -136,8 +141,8 @@ struct Net {
 	hashes: Vec<[u8; 32]>,
 	regs: HashMap<u64, Reg>,
 	hold: Vec<bool>,
-	/// manager snapshot, monitor-update counter at that time, and whether the node was idle then (events
-	/// handled, links up and empty: nothing of its own can sit in a holding cell)
+	/// manager snapshot, monitor-update counter at that time, and whether none of the node's own HTLCs
+	/// waited in a holding cell then (`list_channels` shows such an HTLC without an id)
 	saves: Vec<Option<(Vec<u8>, u64, bool)>>,
 	last_recent: Vec<Value>,
 	run: u64,
@@ -160,6 +165,21 @@ struct Net {
 	/// payment ids accepted so far; set once an id was accepted a second time
 	accepted_ids: Vec<u64>,
 	id_reused: bool,
+	/// the node's user has handled a PaymentSent since the node's last manager snapshot
+	sent_since_save: Vec<bool>,
+	/// the miner: broadcast and not yet confirmed transactions, confirmed txids, spent outpoints,
+	/// funding txid -> channel, confirmed commitment txid -> channel
+	mempool: Vec<bitcoin::Transaction>,
+	confirmed: HashSet<bitcoin::Txid>,
+	seen_txids: HashSet<bitcoin::Txid>,
+	spent: HashSet<bitcoin::OutPoint>,
+	funding: Vec<(bitcoin::Txid, usize)>,
+	commit_chan: HashMap<bitcoin::Txid, usize>,
+	/// the largest cltv_expiry of any HTLC offered in the run
+	max_cltv: u32,
+	/// the chain has settled and nothing was done since
+	settled: bool,
+	mined_any: bool,
 }
 
 fn is_resolution(k: &str) -> bool {
@@ -218,7 +238,7 @@ impl Net {
 
 	fn describe(&mut self, w: &Wire) -> Option<Value> {
 		match w {
-			Wire::Add(m) => Some(json!({"kind":"update_add_htlc","chan":self.chan(&m.channel_id),"id":m.htlc_id,"amt":m.amount_msat,"hash":self.hash(&m.payment_hash.0),"cltv":m.cltv_expiry})),
+			Wire::Add(m) => { if m.cltv_expiry > self.max_cltv { self.max_cltv = m.cltv_expiry; } Some(json!({"kind":"update_add_htlc","chan":self.chan(&m.channel_id),"id":m.htlc_id,"amt":m.amount_msat,"hash":self.hash(&m.payment_hash.0),"cltv":m.cltv_expiry})) },
 			Wire::Fulfill(m) => {
 				let h = bitcoin::hashes::sha256::Hash::hash(&m.payment_preimage.0).to_byte_array();
 				Some(json!({"kind":"update_fulfill_htlc","chan":self.chan(&m.channel_id),"id":m.htlc_id,"amt":0,"hash":self.hash(&h),"cltv":0}))
@@ -295,12 +315,25 @@ impl Net {
 			}
 			if !self.hold[i] {
 				handled += self.fetch_events(i);
+				// events of the monitors (spendable outputs)
+				use lightning::events::EventsProvider;
+				let got = std::cell::RefCell::new(Vec::new());
+				self.nodes[i].chain_monitor.chain_monitor.process_pending_events(&|e: Event| { got.borrow_mut().push(e); Ok(()) });
+				for e in got.into_inner() { self.log_event(i, e); }
 			}
 			let txs: Vec<_> = self.nodes[i].tx_broadcaster.txn_broadcasted.lock().unwrap().drain(..).collect();
 			self.nodes[i].tx_broadcaster.txn_types.lock().unwrap().clear();
 			if !txs.is_empty() {
 				self.closed_seen = true;
-				self.ev(json!({"ev":"broadcast","node":i,"n":txs.len()}));
+				// (rebroadcasts of a known transaction are not recorded again)
+				let mut fresh = 0;
+				for tx in txs {
+					let txid = tx.compute_txid();
+					if !self.seen_txids.insert(txid) { continue; }
+					fresh += 1;
+					if !self.confirmed.contains(&txid) && !tx.input.iter().any(|x| self.spent.contains(&x.previous_output)) { self.mempool.push(tx); }
+				}
+				if fresh > 0 { self.ev(json!({"ev":"broadcast","node":i,"n":fresh})); }
 			}
 		}
 		want_disc.sort();
@@ -310,6 +343,91 @@ impl Net {
 			self.do_disconnect(a, b);
 		}
 		handled > 0 || disc
+	}
+
+	/// Mine one block with every broadcast transaction that can confirm now (parents confirmed in an
+	/// earlier block, inputs unspent, height locktime reached) and hand it to every node. What each mined
+	/// transaction shows to anyone reading the chain is recorded: a spend of a funding output is a
+	/// commitment transaction of that channel (with its output values); a spend of a commitment output
+	/// whose witness script commits to a payment hash of the run is the resolution of that HTLC, with
+	/// the preimage in the witness (a claim) or without (a timeout).
+	fn mine_block(&mut self, log_empty: bool) {
+		let n = self.nodes.len();
+		let h0 = self.nodes[0].best_block_info().1;
+		if (1..n).any(|i| self.nodes[i].best_block_info().1 != h0) { self.ev(json!({"ev":"mine_skipped"})); return; }
+		let newh = h0 + 1;
+		let mut txs: Vec<bitcoin::Transaction> = Vec::new();
+		let mut in_block: HashSet<bitcoin::Txid> = HashSet::new();
+		let pool_ids: HashSet<bitcoin::Txid> = self.mempool.iter().map(|m| m.compute_txid()).collect();
+		let mut taken: Vec<usize> = Vec::new();
+		for (k, tx) in self.mempool.iter().enumerate() {
+			let parents_ok = tx.input.iter().all(|i| {
+				let p = i.previous_output.txid;
+				!in_block.contains(&p) && (!pool_ids.contains(&p) || self.confirmed.contains(&p))
+			});
+			if !parents_ok { continue; }
+			if tx.input.iter().any(|i| self.spent.contains(&i.previous_output)) { continue; }
+			if tx.lock_time.is_block_height() && tx.lock_time.to_consensus_u32() >= newh { continue; }
+			for i in tx.input.iter() { self.spent.insert(i.previous_output); }
+			in_block.insert(tx.compute_txid());
+			txs.push(tx.clone());
+			taken.push(k);
+		}
+		for t in in_block.iter() { self.confirmed.insert(*t); }
+		let spent = self.spent.clone();
+		let mut k = 0;
+		self.mempool.retain(|m| { let keep = !taken.contains(&k) && !m.input.iter().any(|i| spent.contains(&i.previous_output)); k += 1; keep });
+		for i in 0..n {
+			let block = create_dummy_block(self.nodes[i].best_block_hash(), self.time, txs.clone());
+			connect_block(&self.nodes[i], &block);
+		}
+		if !txs.is_empty() || log_empty {
+			self.ev(json!({"ev":"block","n":1,"height":self.height(),"time":(self.time - self.time0),"mined":txs.len()}));
+		}
+		if !txs.is_empty() { self.mined_any = true; }
+		let ripe: Vec<[u8; 20]> = self.hashes.iter().map(|h| bitcoin::hashes::ripemd160::Hash::hash(h).to_byte_array()).collect();
+		for tx in txs.iter() {
+			if let Some(c) = tx.input.iter().find_map(|i| self.funding.iter().find(|f| f.0 == i.previous_output.txid).map(|f| f.1)) {
+				self.commit_chan.insert(tx.compute_txid(), c);
+				let outs: Vec<u64> = tx.output.iter().map(|o| o.value.to_sat()).collect();
+				self.ev(json!({"ev":"chain","what":"commitment","chan":c,"outs":outs,"hash":0,"preimage":false}));
+				continue;
+			}
+			for inp in tx.input.iter() {
+				let c = match self.commit_chan.get(&inp.previous_output.txid) { Some(c) => *c, None => continue };
+				let script: &[u8] = match inp.witness.last() { Some(s) => s, None => continue };
+				let h = match ripe.iter().position(|r| script.windows(20).any(|w| w == r)) { Some(p) => p + 1, None => continue };
+				let pre = inp.witness.iter().any(|e| e.len() == 32
+					&& bitcoin::hashes::sha256::Hash::hash(e).to_byte_array() == self.hashes[h - 1]);
+				self.ev(json!({"ev":"chain","what":"htlc","chan":c,"outs":[],"hash":h,"preimage":pre}));
+			}
+		}
+		self.drain();
+	}
+
+	/// Everything that was broadcast is mined at once, block after block, until every timelock of the
+	/// run has expired; the users handle their events, all links are up, messages flow in between.
+	fn settle_chain(&mut self) {
+		let n = self.nodes.len();
+		for i in 0..n { self.hold[i] = false; }
+		for a in 0..n { for b in a + 1..n { if self.connected.contains_key(&(a, b)) { self.do_reconnect(a, b); } } }
+		let links = self.all_links();
+		self.drain();
+		self.pump(&links, None);
+		self.ev(json!({"ev":"settle_chain","height":self.height()}));
+		let rounds = self.max_cltv.saturating_sub(self.height()) + 40;
+		let mut idle_rounds = 0;
+		for r in 0..rounds + 400 {
+			let before = self.log.lock().unwrap().len();
+			self.mine_block(false);
+			self.pump(&links, None);
+			let quiet = self.log.lock().unwrap().len() == before;
+			if quiet { idle_rounds += 1; } else { idle_rounds = 0; }
+			// past every timelock of the run: stop once nothing has moved for a while
+			if r >= rounds && idle_rounds >= 20 { break; }
+		}
+		self.ev(json!({"ev":"settled","height":self.height(),"mempool":self.mempool.len()}));
+		self.settled = true;
 	}
 
 	fn fetch_events(&mut self, i: usize) -> usize {
@@ -373,6 +491,7 @@ impl Net {
 			Event::PaymentSent { payment_id, payment_hash, payment_preimage, fee_paid_msat, amount_msat, .. } => {
 				let h = self.hash(&payment_hash.0);
 				let ph = bitcoin::hashes::sha256::Hash::hash(&payment_preimage.0).to_byte_array();
+				self.sent_since_save[i] = true;
 				self.ev(json!({"ev":"event","node":i,"kind":"PaymentSent","pid":payment_id.map(|p| pid_index(&p)).unwrap_or(-1),"hash":h,
 					"preimage_ok": ph == payment_hash.0,"fee":fee_paid_msat.map(|f| f as i64).unwrap_or(-1),"amt":amount_msat.map(|f| f as i64).unwrap_or(-1)}));
 			},
@@ -712,9 +831,7 @@ impl Net {
 	}
 
 	fn node_idle(&self, i: usize) -> bool {
-		!self.hold[i]
-			&& self.connected.iter().all(|(k, up)| (k.0 != i && k.1 != i) || *up)
-			&& self.queues.iter().all(|(k, q)| (k.0 != i && k.1 != i) || q.is_empty())
+		self.nodes[i].node.list_channels().iter().all(|c| c.pending_outbound_htlcs.iter().all(|h| h.htlc_id.is_some()))
 	}
 
 	fn op_restart(&mut self, i: usize, mode: &str, allow_unclean: bool) -> bool {
@@ -727,6 +844,7 @@ impl Net {
 			self.ev(json!({"ev":"save","node":i}));
 			let idle = self.node_idle(i);
 			self.saves[i] = Some((bytes, now, idle));
+			self.sent_since_save[i] = false;
 		}
 		let (bytes, at, idle) = self.saves[i].clone().unwrap();
 		let stale = at != now;
@@ -735,8 +853,11 @@ impl Net {
 		// KNOWN findings (see checks/c03.py): a stale snapshot taken while a payment's HTLC waited in a
 		// holding cell makes LDK report the payment failed although the HTLC was sent later; a stale
 		// snapshot that still holds an earlier, abandoned use of a payment id cannot take up the HTLCs of
-		// a later use of that id
-		if stale && (!idle || self.id_reused) && !allow_unclean { return false; }
+		// a later use of that id; a stale snapshot older than a PaymentSent the user has handled makes LDK
+		// report PaymentFailed once the HTLCs have left the monitors
+		if stale && (!idle || self.id_reused || self.sent_since_save[i]) && !allow_unclean { return false; }
+		// (the manager is synced by best_block_updated only: no restart once transactions were mined)
+		if self.mined_any { return false; }
 		// the process dies: its connections and everything queued on them are gone
 		for j in 0..self.nodes.len() {
 			if j != i && *self.connected.get(&Self::key(i, j)).unwrap_or(&false) {
@@ -775,9 +896,10 @@ impl Net {
 		self.restarts += 1;
 		self.ev(json!({"ev":"restart","node":i,"stale":stale}));
 		if stale {
-			// what the user sees first: the list of recent payments; then the run ends
+			// what the user sees first: the list of recent payments; LDK has closed the channels whose
+			// monitors were ahead, the run goes on (see `settle_chain`)
 			self.log_recent(i, true);
-			self.ended = true;
+			self.drain();
 			return true;
 		}
 		self.drain();
@@ -804,12 +926,13 @@ impl Net {
 		for i in 0..n { self.log_recent(i, false); }
 		let b = self.balances();
 		let pending_q: usize = self.queues.values().map(|q| q.len()).sum();
-		self.ev(json!({"ev":"quiet","height":self.height(),"nodes":b,"queued":pending_q,"closed":self.closed_seen}));
+		self.ev(json!({"ev":"quiet","height":self.height(),"nodes":b,"queued":pending_q,"closed":self.closed_seen,"settled":self.settled}));
 	}
 
 	fn step(&mut self, op: &Value) {
 		if self.ended { return; }
 		let name = op["op"].as_str().unwrap_or("");
+		if name != "settle" { self.settled = false; }
 		let n = self.nodes.len();
 		let node = op["node"].as_u64().unwrap_or(0) as usize;
 		let did = match name {
@@ -939,6 +1062,7 @@ impl Net {
 					let now = self.persisters[node].updates.load(Ordering::SeqCst);
 					let idle = self.node_idle(node);
 					self.saves[node] = Some((bytes, now, idle));
+					self.sent_since_save[node] = false;
 					self.ev(json!({"ev":"save","node":node}));
 					true
 				} else { false }
@@ -954,6 +1078,8 @@ impl Net {
 				} else { false }
 			},
 			"settle" => { self.settle(); true },
+			"settle_chain" => { self.settle_chain(); true },
+			"mine" => { for _ in 0..op["n"].as_u64().unwrap_or(1).max(1) { self.mine_block(true); } true },
 			_ => false,
 		};
 		if did {
@@ -1001,9 +1127,11 @@ fn build_net(run: u64, seed: u64, cfg: &Value, log: &Log) -> Net {
 		_ => { for i in 0..n - 1 { pairs.push((i, i + 1)); } },
 	}
 	let mut chans = Vec::new();
+	let mut funding = Vec::new();
 	let mut connected = HashMap::new();
 	for (a, b) in pairs.iter() {
-		let (_, _, cid, _tx) = create_announced_chan_between_nodes_with_value(&nodes, *a, *b, value, push);
+		let (_, _, cid, ftx) = create_announced_chan_between_nodes_with_value(&nodes, *a, *b, value, push);
+		funding.push((ftx.compute_txid(), chans.len() + 1));
 		let scid = nodes[*a].node.list_channels().iter().find(|c| c.channel_id == cid).unwrap().short_channel_id.unwrap();
 		chans.push(Chan { a: *a, b: *b, scid, cid });
 		connected.insert((*a, *b), true);
@@ -1025,7 +1153,8 @@ fn build_net(run: u64, seed: u64, cfg: &Value, log: &Log) -> Net {
 	let mut net = Net {
 		nodes, cfgs, persisters, queues: HashMap::new(), connected, log: log.clone(), chans, hashes: Vec::new(),
 		regs: HashMap::new(), hold: vec![false; n], saves: vec![None; n], last_recent: vec![json!([]); n], run, seed,
-		time0, time: time0, executed: 0, skipped: 0, restarts: 0, closed_seen: false, claimable_seen: Vec::new(), deadlines: HashMap::new(), shown_htlcs: HashMap::new(), ended: false, accepted_ids: Vec::new(), id_reused: false,
+		time0, time: time0, executed: 0, skipped: 0, restarts: 0, closed_seen: false, claimable_seen: Vec::new(), deadlines: HashMap::new(), shown_htlcs: HashMap::new(), ended: false, accepted_ids: Vec::new(), id_reused: false, sent_since_save: vec![false; n],
+		mempool: Vec::new(), confirmed: HashSet::new(), seen_txids: HashSet::new(), spent: HashSet::new(), funding, commit_chan: HashMap::new(), max_cltv: 0, settled: false, mined_any: false,
 	};
 	let _ = net.cfgs;
 	let c = lightning::verif::consts();
